@@ -186,7 +186,7 @@ func init() {
 				return s
 			}
 			if r.Chance(0.45) {
-				cc := genCharCfg(r, charOpt{small: true, budget: int64(budget), maxLen: 6, maxReq: 4, noEmptied: true})
+				cc := genCharCfg(r, charOpt{small: true, budget: int64(budget), maxLen: 6, maxReq: 4, noEmptied: r.Chance(0.7)})
 				s.Char = &cc
 			} else {
 				w := genSweepableWL(r, budget, true)
@@ -438,7 +438,7 @@ func runC06Large(c *Ctx, s *C06Spec) {
 		cfg := *s.Char
 		rec := cfg.Recipe()
 		m := modelChar(cfg)
-		if m.Emptied > 0 || len(m.A) == 0 || len(m.Req) > 8 {
+		if len(m.A) == 0 || len(m.Req) > 8 {
 			return
 		}
 		cnt := m.Count()
